@@ -291,8 +291,10 @@ def main(argv=None):
         with open(replay_path, 'w') as f:
             json.dump(rp, f, indent=1)
     ev = build_evidence(a.prop, P, a.tier, seed, results, total_ob, discharged, wall, violations, known_hits, witnesses)
-    os.makedirs(os.path.join(ROOT, 'evidence'), exist_ok=True)
-    with open(os.path.join(ROOT, 'evidence', a.prop + '.json'), 'w') as f:
+    # VERIF_EVIDENCE_DIR: used while trying seeded changes, so that the committed evidence stays that of the unchanged tree
+    evdir = os.environ.get('VERIF_EVIDENCE_DIR') or os.path.join(ROOT, 'evidence')
+    os.makedirs(evdir, exist_ok=True)
+    with open(os.path.join(evdir, a.prop + '.json'), 'w') as f:
         json.dump(ev, f, indent=1)
     for r in results:
         st = r['status']
